@@ -103,6 +103,12 @@
             assert forall|l: int| 0 <= l < L implies #[trigger] cmul(cs, skb.s_1_hat_mont[l].0) == cmul(cs, ska.s_1_hat_mont[l].0) by { }
             assert forall|k: int| 0 <= k < K implies #[trigger] cmul(cs, skb.s_2_hat_mont[k].0) == cmul(cs, ska.s_2_hat_mont[k].0) by { }
             assert forall|k: int| 0 <= k < K implies #[trigger] cmul(cs, skb.t_0_hat_mont[k].0) == cmul(cs, ska.t_0_hat_mont[k].0) by { }
+            let fa = sgn_hfn(a, ska, ys, cs, gamma2); let fb = sgn_hfn(a, skb, ys, cs, gamma2);
+            assert forall|k: int, n: int| 0 <= k < K && 0 <= n < 256 implies #[trigger] fa(k, n) == fb(k, n) by {
+                assert(cmul(cs, ska.s_2_hat_mont[k].0) == cmul(cs, skb.s_2_hat_mont[k].0));
+                assert(cmul(cs, ska.t_0_hat_mont[k].0) == cmul(cs, skb.t_0_hat_mont[k].0));
+            }
+            lemma_fn_count_ext(fa, fb, 256 * K as int, K as int);
         }
         assert(all_rejected_before(a, skb, mu, rhopp, kappa, beta, gamma1, gamma2, omega, tau, lam4)) by {
             assert forall|kp: int| 0 <= kp < kappa && kp % (L as int) == 0 implies #[trigger] rejected_at(a, skb, mu, rhopp, kp, beta, gamma1, gamma2, omega, tau, lam4) by {
